@@ -1,6 +1,5 @@
 SPECIFICATION MSpec
 CONSTANTS
-  Deviations = {"optfix", "expelled", "sortedset", "dsmap"}
   Scope = "none"
   Large = FALSE
   NV = 1
